@@ -25,6 +25,7 @@ CHECKS = {
     'C08': ('exploration', 'two-dict + flag model of cache / attached archive / parked archive stepped against klepto cache over 12 archive kinds: cache ops, direct archive ops (also on parked and replaced archives), dump/load/sync keyed and unkeyed, archived on/off/query, open, archive=, drop; cache, every archive ever attached, archived() and identity of cache.archive compared after every step', 'str keys and scalar values only (accepted by every codec)', 'property-based testing (Hypothesis, stratified over archive kind; half of the histories start from a constructed conflict or off..mutate..on sandwich): model-based oracle written from the property statement, full-state comparison after every step'),
     'C04': ('exploration', 'dict model of store-time deep copies vs what every reader placement sees (writer handle, new handle, forked process, second interpreter with another hash seed and bytecode caching on, a handle that interpreter kept open) for writers in this process, in forked children that exit, or in a separate interpreter; 10 persistent configurations; rebuild paths (copy from state, dill round trip, cached re-open + load, pickled cache wrapper) and re-decoration sessions served from the archive', 'worker interpreters run with python default bytecode caching; values restricted to each codec domain; sqlite handles do not pickle', 'property-based testing (Hypothesis, stratified over persistent configuration + a session stratum): generated write histories x writer/reader process placements executed with real forked processes and worker interpreters; model-based round-trip oracle (type-exact)'),
     'C17': ('exploration', 'repr(key) of three spellings of one call computed in three interpreters with hash seeds 0 / 1 / 4242 must be byte-identical for every session-stable keymap (raw, string, pickle, every advertised hashlib algorithm; flat, typed, sentinel variants) via f.key and klepto.keygen; writer/reader session pairs on 7 persistent archives: the later session (other seed, other spellings) answers every call without evaluating', 'inputs whose own repr/pickle differs between interpreters are discarded and counted; sets/frozensets not generated', 'property-based testing (Hypothesis): generated signatures x bindings x spellings x keymaps evaluated in three real worker interpreters with different PYTHONHASHSEED; differential oracle between interpreters + session round-trip oracle'),
+    'C13': ('fault_enumeration', 'for each generated (prior state, operation) on 10 persistent archive configurations, EVERY crash point of the real I/O sequence is enumerated: the operation runs in a forked child under a libc interposition shim, is killed before its k-th mutating call for all k (plus partial writes), and a new process must open and read the archive and see each touched key old-or-new, untouched keys unchanged and no phantom key', 'process kill, not power loss; crash points are libc calls under the archive root; one operation per experiment; enumeration over k complete per (state, operation), the (state, operation) pairs themselves are sampled', 'fault injection driven by property-based generation (Hypothesis, stratified over configuration): generated prior histories and operations x exhaustive enumeration of kill points at libc-call granularity via an LD_PRELOAD shim; old-or-new oracle evaluated in a fresh process'),
     'C05': ('exploration',
             'generated histories over all 12 decorator classes x maxsize spellings (positional/keyword, 0, None, 1..6) x purge x 18 backends; per-call size predicate taken from the property statement; finds violations, cannot prove absence',
             'sizes observed via len(f.__cache__()) and f.info().size; bounded history length (<=60 ops) and pool size (<=8 keys)',
